@@ -168,8 +168,13 @@ class AbsWalk:
                         store.pop(k, None)
                     else:
                         store[k] = v
-        # only top-level semantics: assignments in this element (sub-elements were applied at their own position)
-        for l, kind, n in writes(x):
+        # only top-level semantics: assignments in this element (sub-elements were applied at their own position).  A declaration keeps
+        # its initialiser whole (clang's CFG does not split it): side effects nested in the initialiser (`c = str[i++]`) happen before
+        # the declared variable gets its value, and eval_in() reads `i++` off the post-state
+        ws = list(writes(x))
+        if isinstance(x, dict) and x.get("k") == "decl":
+            ws = [w_ for w_ in ws if w_[1] != "decl"] + [w_ for w_ in ws if w_[1] == "decl"]
+        for l, kind, n in ws:
             t = lv(l)
             hit = [k for k in list(store) if k == t or k.startswith(t + ".") or k.startswith(t + "->") or k.startswith(t + "[")]
             if kind == "decl":
@@ -193,13 +198,14 @@ class AbsWalk:
                     store.pop(k, None)
                 if v is not None:
                     store[t] = v
-            elif n.get("k") == "bin" and t in self.tracked and t in store and n["op"] in ("+=", "-=", "|=", "&=", "<<=", ">>=", "^=", "*="):
+            elif n.get("k") == "bin" and t in self.tracked and t in store and n["op"] in ("+=", "-=", "|=", "&=", "<<=", ">>=", "^=", "*=", "/=", "%="):
                 r = eval_in(store, n["r"], self.fn, self.call_eval)
                 cur = store.pop(t)
                 if r is not None:
                     try:
                         val = {"+=": lambda: cur + r, "-=": lambda: cur - r, "|=": lambda: cur | r, "&=": lambda: cur & r,
-                               "<<=": lambda: cur << r, ">>=": lambda: cur >> r, "^=": lambda: cur ^ r, "*=": lambda: cur * r}[n["op"]]()
+                               "<<=": lambda: cur << r, ">>=": lambda: cur >> r, "^=": lambda: cur ^ r, "*=": lambda: cur * r,
+                               "/=": lambda: int(cur / r), "%=": lambda: cur - int(cur / r) * r}[n["op"]]()
                     except Exception:
                         val = None
                     if val is not None:
